@@ -6,6 +6,7 @@
 
 extern crate tlsh;
 
+mod cmpstream;
 mod codecstream;
 mod genstream;
 mod util;
@@ -73,6 +74,10 @@ fn main() {
         "frombin" => codecstream::stream_frombin(&mut out, seed, budget),
         "store" => codecstream::stream_store(&mut out, seed, budget),
         "acc" => codecstream::stream_acc(&mut out, seed, budget),
+        "cmp" => cmpstream::stream_cmp(&mut out, seed, budget),
+        "body" => cmpstream::stream_body(&mut out, seed, budget),
+        "bodyrows" => cmpstream::stream_body_rows(&mut out, seed, budget),
+        "hdr" => cmpstream::stream_hdr(&mut out),
         "kat" => genstream::stream_kat(&mut out, &format!("{}/kat.txt", corpus)),
         x => {
             eprintln!("unknown stream {}", x);
